@@ -29,7 +29,14 @@ def decomp_case(draw):
             rows.append(bits)
         mask = rows
         if any(b == 0 for r in rows for b in r):
-            sysd = dict(sysd, lb=None)
+            # a source that is forbidden in some layer must be allowed to be off: its lower bound is 0; the others keep theirs
+            # (mixed zero / positive lower bounds)
+            if sysd.get("lb") is None:
+                pass
+            else:
+                lbv = np.broadcast_to(np.asarray(sysd["lb"], dtype=float), (sv.n,)).copy()
+                lbv[[j for j in range(sv.n) if any(r[j] == 0 for r in rows)]] = 0.0
+                sysd = dict(sysd, lb=lbv.tolist())
             sv = Sys(sysd)
     size = draw(st.one_of(st.integers(5, 20), st.sampled_from([5, 8, 40, 60])))
     U = np.asarray(draw(gens.array((size, sv.n), 0.05, 0.95, styles=("raw",)))).reshape(size, sv.n)
